@@ -943,14 +943,26 @@ def run_prog_case(case: dict) -> dict:
                'build': case.get('build', 'ctor')}
         violations.append({'property': PROP, 'cls': cls, 'signature': sig, 'detail': detail, 'case': case, 'info': dict(info)})
 
-    fn = getattr(progs(), case['prog'])
+    maker = getattr(progs(), 'MAKERS', {}).get(case['prog'])
+    made: dict = {}
+
+    def call(cx):
+        # a factory-made program carries the context in a `with` block of its own and is made once per
+        # context object (so that its second evaluation is not its first: nothing may be decided at compile time)
+        if maker is not None:
+            if id(cx) not in made:
+                made[id(cx)] = (maker(cx), cx)
+            return made[id(cx)][0](x, y, ctx=fp.FP64)
+        return fn(x, y, ctx=cx)
+
+    fn = getattr(progs(), case['prog'], None)
     nops = progs().PROGS[case['prog']]
     x, y = Fraction(case['x']), Fraction(case['y'])
     k = case['k']
 
     def det(mode):
         c = _ctor_context(dict(case, k=0, mode=mode), None)
-        return fn(x, y, ctx=c)
+        return call(c)
 
     try:
         lo = det('RTZ')
@@ -960,7 +972,8 @@ def run_prog_case(case: dict) -> dict:
     for v in (lo, hi):
         if not isinstance(v, fp.Float) or v.is_nar() or v.is_zero():
             return skip('format too small for this program')
-    lo_q, hi_q = lo.as_rational(), hi.as_rational()
+    rtz_q, raz_q = lo.as_rational(), hi.as_rational()
+    lo_q, hi_q = sorted((rtz_q, raz_q))     # (a program may end on a negative value)
     log, rng_obj = _sources(case['source'])
     decoy_log = SourceLog()
     try:
@@ -976,9 +989,9 @@ def run_prog_case(case: dict) -> dict:
         try:
             if rng_obj is None:
                 with GlobalPatch(log):
-                    out = fn(x, y, ctx=ctx)
+                    out = call(ctx)
             else:
-                out = fn(x, y, ctx=ctx)
+                out = call(ctx)
         except Exception as e:
             return {'exc': type(e).__name__}, list(log.calls)
         return out, list(log.calls)
@@ -1011,11 +1024,11 @@ def run_prog_case(case: dict) -> dict:
         if isinstance(out2, dict) or out2.as_rational() != q or calls2 != calls:
             vio('not-a-function-of-draw', {'script': name})
             break
-        if name == 'zeros' and case['mode'] == 'RTZ' and q != lo_q:
-            vio('program-zeros-script-is-not-rtz', {'got': str(q), 'rtz': str(lo_q)})
+        if name == 'zeros' and case['mode'] == 'RTZ' and q != rtz_q:
+            vio('program-zeros-script-is-not-rtz', {'got': str(q), 'rtz': str(rtz_q)})
             break
-        if name == 'ones' and case['mode'] == 'RAZ' and q != hi_q:
-            vio('program-ones-script-is-not-raz', {'got': str(q), 'raz': str(hi_q)})
+        if name == 'ones' and case['mode'] == 'RAZ' and q != raz_q:
+            vio('program-ones-script-is-not-raz', {'got': str(q), 'raz': str(raz_q)})
             break
     if decoy_log.calls:
         vio('replaced-source-still-used', {'draws': list(decoy_log.calls)[:4], 'build': case.get('build')})
